@@ -1,6 +1,7 @@
 package c18
 
 import (
+	"errors"
 	"fmt"
 	"net"
 	"sort"
@@ -32,19 +33,19 @@ func TestReplay(t *testing.T)       { vk.TestReplay(t) }
 type KV struct{ K, V string }
 
 type Fidelity struct {
-	CQuery, RQuery     []KV
-	CHeader, RHeader   []KV
-	CCookie, RCookie   []KV
-	CUA, RUA           string
-	CRef, RRef         string
-	CPath, RPath       string // path parameter :id
-	Form               []KV   `json:",omitempty"`
-	Files              []KV   `json:",omitempty"` // name, content
-	Body               string `json:",omitempty"`
-	BodyKind           string // none | raw | form | multipart | json
-	Method             string
-	BaseURL            bool
-	Twice              bool // send the same configuration twice: the parsed request must be identical
+	CQuery, RQuery         []KV
+	CHeader, RHeader       []KV
+	CCookie, RCookie       []KV
+	CUA, RUA               string
+	CRef, RRef             string
+	CPath, RPath           string // path parameter :id
+	Form                   []KV   `json:",omitempty"`
+	Files                  []KV   `json:",omitempty"` // name, content
+	Body                   string `json:",omitempty"`
+	BodyKind               string // none | raw | form | multipart | json
+	Method                 string
+	BaseURL                bool
+	Twice                  bool // send the same configuration twice: the parsed request must be identical
 	DisablePathNormalizing bool `json:",omitempty"`
 }
 
@@ -707,8 +708,28 @@ func TestOwnership(t *testing.T) {
 	ln := fasthttputil.NewInmemoryListener()
 	go func() { _ = app.Listener(ln, fiber.ListenConfig{DisableStartupMessage: true}) }()
 	defer func() { _ = app.Shutdown() }()
-	cl := client.New().SetDial(func(string) (net.Conn, error) { return ln.Dial() })
-	var bad, ok, timeouts int64
+	// Besides the healthy server there are two hosts whose transport FAILS, sooner or later than the caller's timeout:
+	// down.example refuses the dial after a delay, reset.example accepts, reads the request and closes without answering.
+	var dialSeq int64
+	cl := client.New().SetDial(func(addr string) (net.Conn, error) {
+		n := atomic.AddInt64(&dialSeq, 1)
+		switch {
+		case strings.HasPrefix(addr, "down.example"):
+			time.Sleep(time.Duration(1+n%8) * time.Millisecond)
+			return nil, errors.New("vk-foreign: dial down.example: host is down")
+		case strings.HasPrefix(addr, "reset.example"):
+			a, b := net.Pipe()
+			go func() {
+				buf := make([]byte, 4096)
+				_, _ = b.Read(buf)
+				time.Sleep(time.Duration(1+n%8) * time.Millisecond)
+				_ = b.Close()
+			}()
+			return a, nil
+		}
+		return ln.Dial()
+	})
+	var bad, ok, timeouts, failing int64
 	var first atomic.Value
 	var wg sync.WaitGroup
 	seed := int(vk.Seed() % 1000)
@@ -719,8 +740,27 @@ func TestOwnership(t *testing.T) {
 			for i := 0; i < reqs; i++ {
 				id := fmt.Sprintf("r%d-%d", g, i)
 				to := 2500*time.Microsecond + time.Duration((g*37+i*91+seed)%3000)*time.Microsecond
+				if k := (g*7 + i*13 + seed) % 10; k < 3 {
+					// a request whose transport fails: it must end in an error, never in a response
+					host := []string{"down.example", "reset.example", "down.example"}[k]
+					resp, err := cl.R().SetTimeout(to).Get("http://" + host + "/" + id)
+					atomic.AddInt64(&failing, 1)
+					if err == nil {
+						body := resp.Body()
+						atomic.AddInt64(&bad, 1)
+						first.CompareAndSwap(nil, fmt.Sprintf("request %s to %s (whose transport always fails; timeout %v) was handed a response: status %d, %d body bytes starting %q", id, host, to, resp.StatusCode(), len(body), string(body[:min(len(body), 24)])))
+						resp.Close()
+					}
+					vk.Rec.Count("ownership", uint64(g)<<32|uint64(i), true, []string{"failing-transport"}, func() any { return map[string]any{"id": id, "host": host, "timeout_us": to.Microseconds()} })
+					continue
+				}
 				resp, err := cl.R().SetTimeout(to).Get("http://example.com/" + id)
 				if err != nil {
+					if strings.Contains(err.Error(), "vk-foreign") {
+						// the healthy host never produces this error: it is the late failure of somebody else's abandoned request
+						atomic.AddInt64(&bad, 1)
+						first.CompareAndSwap(nil, fmt.Sprintf("request %s to the healthy host (timeout %v) returned another request's transport error: %v", id, to, err))
+					}
 					atomic.AddInt64(&timeouts, 1)
 					continue
 				}
@@ -737,9 +777,9 @@ func TestOwnership(t *testing.T) {
 		}(g)
 	}
 	wg.Wait()
-	vk.Rec.Extra("ownership", map[string]int64{"ok": ok, "bad": bad, "timeouts": timeouts})
+	vk.Rec.Extra("ownership", map[string]int64{"ok": ok, "bad": bad, "timeouts": timeouts, "failing_transport_requests": failing})
 	if bad > 0 {
-		msg := fmt.Sprintf("%d of %d responses handed back do not belong to their request while %d other requests timed out; first: %v", bad, ok+bad, timeouts, first.Load())
+		msg := fmt.Sprintf("%d of %d results handed back do not belong to their request while %d other requests timed out and %d had a failing transport; first: %v", bad, ok+bad, timeouts, failing, first.Load())
 		path := vk.SaveReplay(propOwn, OwnCase{Note: msg}, msg)
 		vk.Rec.Violation("ownership", path)
 		t.Errorf("VIOLATION-CANDIDATE property=%s test=ownership replay=%s\n%s", property, path, msg)
